@@ -27,6 +27,7 @@ REQUIRED = [
     "dup-same-version",             # same coordinates twice: listed once
     "nearer-but-later",             # the winner is nearer although a depth-first walk meets the loser first
     "loser-subtree-discarded",      # a loser's subtree holds an artifact that therefore is absent from the result
+    "late-winner-keeps-subtree",    # ... that is not nearer than the discarded occurrence and has results below it (family MD)
     "late-winner",                  # a winner that comes later in breadth-first order than a discarded child of a loser
     "no-conflict",
     # effective POM
